@@ -19,13 +19,17 @@ class Walk:
         self.n_states = 0
         self.truncated = False
         self.leaves = {}      # frozenset(p.items()) -> (nodes, feasible, final)
-        self.feasible_rows = set()
+        self.feasible_rows = {}
         self.cls = cls or {}
         self.mg = gen.model_graph(spec)
+        self.cur_completable = None
 
     def dis(self, kind, p, detail):
         if kind in self.kinds:
-            self.rep.disagree(kind, {'spec': self.spec, 'picks': sorted(p.items())}, detail, dict(self.cls))
+            cls = dict(self.cls)
+            # does the model consider the state at which this was observed dead (no admissible completion)?
+            cls['model_completable'] = self.cur_completable
+            self.rep.disagree(kind, {'spec': self.spec, 'picks': sorted(p.items())}, detail, cls)
 
     def assign_list(self, p):
         return [p.get(c) for c in range(len(self.spec['sel']))]
@@ -82,6 +86,7 @@ class Walk:
                 self.dis('infeasible-graph-but-admissible-exists', p0, {'n_model_archs': len(self.model_rows)})
             return self
         self.rec(g, p0, has_opt)
+        self.cur_completable = None
         if not self.truncated:
             got = set(self.feasible_rows)
             want = set(self.model_rows)
@@ -89,18 +94,28 @@ class Walk:
                 self.dis('reachable-set-missing', {}, {'missing': [list(r) for r in sorted(want - got, key=str)][:4],
                                                       'n_model': len(want), 'n_impl': len(got)})
             if got - want:
+                # extra rows that were only ever reached through states the model considers dead
+                self.cur_completable = any(self.feasible_rows[r] for r in got - want)
                 self.dis('reachable-set-extra', {}, {'extra': [list(r) for r in sorted(got - want, key=str)][:4]})
+                self.cur_completable = None
         else:
             rep.count('walk:truncated')
         return self
 
     def rec(self, g, p, has_opt=True):
+        try:
+            self._rec(g, p, has_opt)
+        except Exception as e:   # the public API itself failed at this state
+            self.dis('api-exc', p, {'exc': repr(e)[:200]})
+
+    def _rec(self, g, p, has_opt=True):
         if self.n_states >= self.max_states or self.ctx.out_of_time():
             self.truncated = True
             return
         self.n_states += 1
         b, spec, rep = self.b, self.spec, self.rep
         m = self.ctx.driver.ask('state', g=self.mg, a=self.assign_list(p))
+        self.cur_completable = m['completable']
         feasible = g.feasible
         if not feasible or not has_opt:
             rep.count('state:infeasible')
@@ -135,7 +150,7 @@ class Walk:
                 self.dis('conflict-in-feasible-instance', p, {'nodes': nodes})
             elif row not in self.model_rows:
                 self.dis('feasible-leaf-not-admissible', p, {'row': list(row), 'cons_ok': m['cons_ok']})
-            self.feasible_rows.add(row)
+            self.feasible_rows[row] = self.feasible_rows.get(row, False) or bool(m['completable'])
             return
         rep.count('state:inner')
         viable = {v['c']: v['viable'] for v in m['viable']}
